@@ -37,6 +37,12 @@ pub struct OpCase {
     /// small unsigned arguments: step / limb index / rows / cnv_offset ...
     pub q: u32,
     pub r: u32,
+    /// extra small arguments of the DFT-domain family (step, offset, rows, limb_offset, cnv_offset, pair indices)
+    #[serde(default)]
+    pub x: [u32; 4],
+    /// magnitudes beyond the FFT64 exactness domain (NTT120 backends only)
+    #[serde(default)]
+    pub wide: bool,
     pub cls: [VClass; 3],
     pub seed: u64,
 }
@@ -160,6 +166,10 @@ pub fn all_ops() -> Vec<OpInfo> {
     OPS.iter().chain(crate::ops_dft::DFT_OPS.iter()).copied().collect()
 }
 
+/// C08 explores shifts beyond the vector's precision (where `vec_znx_rsh_assign` is known to
+/// panic); every other consumer of the registry stays inside it by construction.
+pub static ALLOW_BEYOND_PRECISION: std::sync::atomic::AtomicBool = std::sync::atomic::AtomicBool::new(false);
+
 fn odd(p: i64) -> i64 {
     p | 1
 }
@@ -214,8 +224,10 @@ pub fn adapt(c: &mut OpCase) {
         "vec_znx_split_ring" | "vec_znx_merge_rings" => {
             // big ring 2^log_n, small ring 2^log_n2 < 2^log_n, ratio 2..16
             c.log_n = c.log_n.clamp(1, 10);
-            let ratio_log = ((c.log_n2 % 4) + 1).min(c.log_n);
-            c.log_n2 = c.log_n - ratio_log;
+            if !(c.log_n2 < c.log_n && c.log_n - c.log_n2 <= 4) {
+                let ratio_log = ((c.log_n2 % 4) + 1).min(c.log_n);
+                c.log_n2 = c.log_n - ratio_log;
+            }
         }
         "vec_znx_switch_ring" => {
             c.log_n2 = c.log_n2.min(12);
@@ -231,12 +243,21 @@ pub fn adapt(c: &mut OpCase) {
         | "vec_znx_rsh_sub" | "vec_znx_rsh_assign" => {
             let lim = (c.size[0].max(c.size[1]) as i64 + 2) * b as i64;
             c.p = c.p.rem_euclid(lim + 1);
+            if op == "vec_znx_rsh_assign" && !ALLOW_BEYOND_PRECISION.load(std::sync::atomic::Ordering::Relaxed) {
+                c.p = c.p.min(c.size[0] as i64 * b as i64);
+            }
         }
         "vec_znx_fill_normal" | "vec_znx_add_normal" | "vec_znx_big_add_normal" => {
             // noise precision k in 1..=size*b
-            let lim = (c.size[0] as i64) * b as i64;
-            c.p = c.p.rem_euclid(lim) + 1;
-            c.b = c.b.max(2);
+            // noise is added to normalised limbs: keep digit + noise * scale far from the i64 range
+            c.b = c.b.clamp(2, 50);
+            if matches!(c.cls[0], VClass::Unnorm(_) | VClass::FullI64) {
+                c.cls[0] = VClass::Uniform;
+            }
+            let lim = (c.size[0] as i64) * c.b as i64;
+            if !(1..=lim).contains(&c.p) {
+                c.p = c.p.rem_euclid(lim) + 1;
+            }
         }
         _ => {}
     }
@@ -469,6 +490,12 @@ fn exec_coeff<B: HalBackend>(env: &mut Env<B>, c: &OpCase) {
             } else {
                 env.out("res", Kind::Znx, n, rc, rs, rk, ri)
             };
+            if op == "vec_znx_fill_normal" {
+                // documented behaviour as implemented: only the limb that carries the noise is written
+                let limb = (c.p as usize).div_ceil(b) - 1;
+                r.declared.clear();
+                r.declare_col(ri, limb..limb + 1);
+            }
             match op {
                 "vec_znx_fill_uniform" => m.vec_znx_fill_uniform(b, &mut r.znx_mut(), ri, &mut src),
                 "vec_znx_fill_normal" => m.vec_znx_fill_normal(b, &mut r.znx_mut(), ri, ni, &mut src),
@@ -647,10 +674,10 @@ pub fn case_strategy(ops: Vec<&'static str>, max_log_n: u8) -> BoxedStrategy<OpC
         (0..nops, 0u8..=max_log_n, 0u8..=12, 1u8..=62, 1u8..=62),
         ([1u8..=3, 1u8..=3, 1u8..=3], [0u8..3, 0u8..3, 0u8..3]),
         ([1u8..=6, 1u8..=6, 1u8..=6], [0u8..=2, 0u8..=2, 0u8..=2]),
-        (p_strategy(), any::<u32>(), any::<u32>()),
+        (p_strategy(), any::<u32>(), any::<u32>(), [0u32..16, 0u32..16, 0u32..16, 0u32..16], proptest::bool::weighted(0.2)),
         ([vclass_strategy(), vclass_strategy(), vclass_strategy()], any::<u64>()),
     )
-        .prop_map(move |((oi, log_n, log_n2, b, b2), (cols, col), (size, slack), (p, q, r), (cls, seed))| {
+        .prop_map(move |((oi, log_n, log_n2, b, b2), (cols, col), (size, slack), (p, q, r, x, wide), (cls, seed))| {
             let mut c = OpCase {
                 op: ops[oi].to_string(),
                 log_n,
@@ -664,6 +691,8 @@ pub fn case_strategy(ops: Vec<&'static str>, max_log_n: u8) -> BoxedStrategy<OpC
                 p,
                 q,
                 r,
+                x,
+                wide,
                 cls,
                 seed,
             };
